@@ -475,6 +475,13 @@ Check C15_dep3_vendor_bug : forall p vendor bug, count_key (k_Bug_dash ++ vendor
   l_remove (dep3_set_vendor_bug LI false p vendor bug) (k_Bug_dash ++ vendor) = l_remove p (k_Bug_dash ++ vendor).
 Print Assumptions C15_dep3_vendor_bug.
 
+Theorem C15_dep3_upstream_bug : forall p b, count_key k_Bug p <= 1 ->
+  upstream_bugs (l_set p k_Bug b) = [b] /\ l_remove (l_set p k_Bug b) k_Bug = l_remove p k_Bug.
+Proof. exact dep3_set_upstream_bug_spec. Qed.
+Check C15_dep3_upstream_bug : forall p b, count_key k_Bug p <= 1 ->
+  upstream_bugs (l_set p k_Bug b) = [b] /\ l_remove (l_set p k_Bug b) k_Bug = l_remove p k_Bug.
+Print Assumptions C15_dep3_upstream_bug.
+
 (* copyright Header::fix: the Format value is normalised in place, idempotently; the pre-1.0 field
    name Format-Specification is renamed in place *)
 Theorem C15_header_fix : forall p f,
